@@ -10,6 +10,7 @@ import (
 	"time"
 
 	"github.com/taskctl/taskctl/pkg/runner"
+	"github.com/taskctl/taskctl/pkg/scheduler"
 	"github.com/taskctl/taskctl/pkg/task"
 	"github.com/taskctl/taskctl/pkg/variables"
 )
@@ -63,6 +64,9 @@ type timedSpec struct {
 	// vcmds != nil: the task has len(vcmds) variations (V=0,1,...); the command texts are the same in every
 	// variation, what command j does in variation v is vcmds[v][j] (it looks at $V). cmds is then vcmds[0].
 	vcmds [][]timedCmd
+	// viaStage: the task is run as the only stage of a pipeline, by the scheduler (as `taskctl <pipeline>` does), and
+	// not by a direct call of the runner: its timeout is the same
+	viaStage bool
 }
 
 func (s timedSpec) variations() [][]timedCmd {
@@ -170,7 +174,17 @@ func runTimedSpec(s timedSpec) (obs runObs, elapsed time.Duration, err error) {
 	}
 	t0 := time.Now()
 	done := make(chan error, 1)
-	go func() { done <- r.Run(t) }()
+	if s.viaStage {
+		g, gerr := scheduler.NewExecutionGraph(&scheduler.Stage{Name: "only", Task: t})
+		if gerr != nil {
+			return runObs{}, 0, gerr
+		}
+		sd := scheduler.NewScheduler(r)
+		sd.VerifSetPause(time.Millisecond)
+		go func() { done <- sd.Schedule(g) }()
+	} else {
+		go func() { done <- r.Run(t) }()
+	}
 	select {
 	case e = <-done:
 	case <-time.After(20 * time.Second):
@@ -187,7 +201,7 @@ func timedCase(col *Collector, s timedSpec, tag string) {
 func timedCase1(col *Collector, s timedSpec, tag string) {
 	obs, elapsed, err := runTimedSpec(s)
 	cs := Case{Line: s.line(), Tags: []string{tag, fmt.Sprintf("T=%d", s.T)}}
-	cs.Replay = cs.Line + " kinds=" + s.kinds() + fmt.Sprintf(" interactive=%v", s.interactive)
+	cs.Replay = cs.Line + " kinds=" + s.kinds() + fmt.Sprintf(" interactive=%v run-as-a-pipeline-stage=%v", s.interactive, s.viaStage)
 	cs.NonTrivial = true
 	if err != nil {
 		cs.Impl = "no-result"
@@ -333,6 +347,16 @@ func runC13(col *Collector, tier string, seed int64) {
 		add(timedSpec{T: T, before: []timedCmd{sl, sl, sl}, cmds: []timedCmd{q}, after: []timedCmd{q}}, "full-budget-each")
 		add(timedSpec{T: T, cmds: []timedCmd{q}, after: []timedCmd{sl, sl, sl}}, "full-budget-each")
 	}
+	// the task as a stage of a pipeline: overruns at every position, in a later variation, in hooks; full budget each
+	for pos, kind := range []string{"sleep", "loop", "immune"} {
+		cmds := []timedCmd{q, q, q}
+		cmds[pos] = timedCmd{kind, 0}
+		add(timedSpec{T: Ts[pos], cmds: cmds, allow: pos == 1, after: []timedCmd{q}, viaStage: true}, "via-stage")
+	}
+	add(timedSpec{T: 600, cmds: []timedCmd{q, q}, vcmds: [][]timedCmd{{q, q}, {q, {"sleep", 0}}}, after: []timedCmd{q}, viaStage: true}, "via-stage")
+	add(timedSpec{T: 500, before: []timedCmd{{"sleep", 0}}, cmds: []timedCmd{q}, after: []timedCmd{q}, viaStage: true}, "via-stage")
+	add(timedSpec{T: 800, cmds: []timedCmd{q}, after: []timedCmd{{"loop", 0}, q}, viaStage: true}, "via-stage")
+	add(timedSpec{T: 800, before: []timedCmd{{"slow", 0}}, cmds: []timedCmd{{"slow", 0}, {"slow", 0}, {"slow", 0}}, after: []timedCmd{{"slow", 0}}, viaStage: true}, "via-stage")
 	// failing (not overrunning) commands with a timeout set behave as without
 	add(timedSpec{T: 200, cmds: []timedCmd{q, {"quick", 3}, q}, allow: true, after: []timedCmd{q}}, "within")
 	add(timedSpec{T: 200, cmds: []timedCmd{q, {"quick", 3}, q}, allow: false, after: []timedCmd{q}}, "within")
